@@ -559,6 +559,7 @@ type env struct {
 	curTx  string
 	lastMv string
 	wrote  bool // the read-write transaction has written something
+	commits int // commits of read-write transactions so far ("odd" / "even" cache variants)
 }
 
 func (e *env) knobs() {
@@ -570,6 +571,15 @@ func (e *env) knobs() {
 		ffldb.VerifSetCache(e.db, 1<<30, far)
 	case "size":
 		ffldb.VerifSetCache(e.db, 400, far)
+	case "odd", "even":
+		// mixed schedule: every second commit flushes (and, being the flushing commit, writes its
+		// own keys straight to leveldb past the cache), the others stay in the write cache
+		flush := (e.commits%2 == 0) == (e.v.cache == "even")
+		if flush {
+			ffldb.VerifSetCache(e.db, 1<<30, -1)
+		} else {
+			ffldb.VerifSetCache(e.db, 1<<30, far)
+		}
 	}
 }
 
@@ -722,6 +732,12 @@ func (e *env) step(st rep.Step) (obs interface{}, fl *failure) {
 	case "Init":
 		obs = "ok"
 	case "Begin":
+		if t == "w" && (e.v.cache == "odd" || e.v.cache == "even") {
+			// the knob takes the database write lock, which a read-write transaction holds: set
+			// the schedule of this transaction's commit before it begins
+			e.commits++
+			e.knobs()
+		}
 		tx, err := e.db.Begin(t == "w")
 		if err == nil {
 			e.txs[t] = tx
